@@ -712,6 +712,11 @@ int dhcp_fastpath_prog(struct xdp_md *ctx) {
 		return XDP_PASS;
 	}
 
+	/* The reply options are written in place: make sure they fit BEFORE the
+	 * request is touched, so that a frame handed to the slow path is still the
+	 * frame that was received. */
+	CHECK_BOUNDS_PASS(pkt.dhcp->options, pkt.data_end, MAX_DHCP_REPLY_OPTIONS_LEN);
+
 	/* Determine reply type */
 	__u8 reply_type = (msg_type == DHCP_DISCOVER) ? DHCP_OFFER : DHCP_ACK;
 
